@@ -29,11 +29,37 @@ type C14Case struct {
 	Steps  []C14Step `json:"steps"`
 }
 
+// c14Val: tags 0..7 are strings/ints; 8 is a native Stack, 9 a Stack alias (fresh instance per call, ID = its tag).
 func c14Val(tag int) any {
+	switch tag {
+	case 8:
+		return stackage.Or().SetID("tag8").Push("in")
+	case 9:
+		return MyStack(stackage.And().SetID("tag9").Push("in"))
+	}
 	if tag%2 == 0 {
 		return "t" + itoa(tag)
 	}
 	return tag
+}
+
+// c14TagOf recovers the tag of a value offered to a policy.
+func c14TagOf(x any) int {
+	switch tv := x.(type) {
+	case int:
+		return tv
+	case string:
+		n := 0
+		fmt.Sscanf(tv, "t%d", &n)
+		return n
+	}
+	if s, ok := stackage.ConvertStack(x); ok {
+		if s.ID() == "tag8" {
+			return 8
+		}
+		return 9
+	}
+	return -1
 }
 
 func runC14(c C14Case) (Stats, error) {
@@ -54,6 +80,7 @@ func runC14Push(c C14Case) (st Stats, err error) {
 	var polErr error      // the error the installed policy returns
 	var rejected map[int]bool
 	installed := false
+	noNest := false
 	everRejected := map[any]bool{}
 	npol := 0
 
@@ -78,10 +105,8 @@ func runC14Push(c C14Case) (st Stats, err error) {
 						return nil
 					}
 					log = append(log, x[0])
-					for tag := range myRej {
-						if x[0] == c14Val(tag) {
-							return myErr
-						}
+					if myRej[c14TagOf(x[0])] {
+						return myErr
 					}
 					return nil
 				})
@@ -90,6 +115,18 @@ func runC14Push(c C14Case) (st Stats, err error) {
 				s.SetPushPolicy(nil)
 				installed = false
 				st.Class("policy-removed")
+			case "nonest":
+				switch step.Table % 3 {
+				case 0:
+					noNest = true
+					s.SetNoNesting(true)
+				case 1:
+					noNest = false
+					s.SetNoNesting(false)
+				default:
+					noNest = !noNest
+					s.SetNoNesting()
+				}
 			case "clearerr":
 				s.SetErr(nil)
 				curErr = nil
@@ -113,13 +150,18 @@ func runC14Push(c C14Case) (st Stats, err error) {
 						continue
 					}
 					if installed {
+						// with a policy installed the no-nesting option has no say (documented): the policy is consulted for every value
 						wantLog = append(wantLog, vals[j])
 						if rejected[tag] {
 							curErr = polErr
 							rejectedAt = j
-							everRejected[vals[j]] = true
 							break
 						}
+						if noNest && tag >= 8 {
+							st.Class("policy-decides-despite-no-nesting")
+						}
+					} else if noNest && tag >= 8 {
+						continue // no policy: the option silently skips Stacks
 					}
 					m.Elems = append(m.Elems, vals[j])
 					accepted++
@@ -531,7 +573,7 @@ func genC14(t *rapid.T, tier Tier) C14Case {
 			c.Cap = rapid.IntRange(1, 6).Draw(t, "cap")
 		}
 		n := rapid.IntRange(1, 15).Draw(t, "nsteps")
-		ops := []string{"push", "push", "push", "setpolicy", "setpolicy", "clearpolicy", "pop", "clearerr"}
+		ops := []string{"push", "push", "push", "setpolicy", "setpolicy", "clearpolicy", "pop", "clearerr", "nonest"}
 		// start with a policy most of the time
 		if rapid.IntRange(0, 3).Draw(t, "startpol") > 0 {
 			c.Steps = append(c.Steps, C14Step{Op: "setpolicy", Table: rapid.IntRange(0, 1023).Draw(t, "table")})
@@ -546,6 +588,8 @@ func genC14(t *rapid.T, tier Tier) C14Case {
 				}
 			case "setpolicy":
 				s.Table = rapid.IntRange(0, 1023).Draw(t, "table")
+			case "nonest":
+				s.Table = rapid.IntRange(0, 2).Draw(t, "mode")
 			}
 			c.Steps = append(c.Steps, s)
 		}
@@ -575,7 +619,7 @@ func genC14(t *rapid.T, tier Tier) C14Case {
 func init() {
 	Register(Def[C14Case]{
 		ID: "C14",
-		Rule: "rapid-generated (a) push histories: batches of 0..6 tagged values against push policies given by an arbitrary accept/reject table over the 10 tags (recording closure), capacity none/1..6, interleaved with policy replacement/removal, Pop, SetErr(nil): " +
+		Rule: "rapid-generated (a) push histories: batches of 0..6 tagged values (strings, ints, a native Stack, a Stack alias) against push policies given by an arbitrary accept/reject table over the 10 tags (recording closure), capacity none/1..6, interleaved with policy replacement/removal, Pop, SetErr(nil) and switching no-nesting (which must have no say while a policy is installed): " +
 			"the closure's call log (values, order), Len/Index*, Err() are compared with the model (consult once per value while room remains; first rejection stops the batch and becomes Err()); " +
 			"(b) install/remove sequences (1..6) of validity/presentation/equality/marshal/unmarshal closures on Stacks of every kind and validity/presentation/equality/unmarshal/evaluator on Conditions, with all observations " +
 			"(Valid, String, IsEqual twin/other, Unmarshal, Marshal, Evaluate) checked after every step against closure result or built-in behaviour. " +
@@ -583,7 +627,7 @@ func init() {
 		Gen: genC14,
 		Run: runC14,
 		Floors: map[string]float64{"reject-after-accept-before-more": 0.08, "capacity-hit-mid-batch-with-policy": 0.03,
-			"basic-presentation-policy": 0.01, "cond-closures": 0.05, "stack-closures": 0.1, "policy-removed": 0.05},
+			"basic-presentation-policy": 0.01, "cond-closures": 0.05, "stack-closures": 0.1, "policy-removed": 0.05, "policy-decides-despite-no-nesting": 0.01},
 		Assumptions: []string{"installed closures are pure recorders", "Stack.Valid is only required to be non-nil when the closure errs (it wraps the error); Condition.Valid must return the closure's error itself"},
 	})
 }
